@@ -24,6 +24,7 @@ type Events struct {
 	AbsOverflow int // abstract-int arithmetic overflowed 64 bits
 	ClampInv    int // integer clamp with low > high (WGSL: min(max(e,low),high))
 	BitsClamp   int // extractBits / insertBits with offset + count > 32 (WGSL clamps)
+	RoundTie    int // round() of an exact .5 tie (WGSL: ties to even)
 	IntOverflow int // i32/u32 + - * << whose mathematical result does not fit (matters for const-expressions only)
 	UndefBuiltin int // builtin called outside the domain where WGSL defines the result
 	Imprecise   int // float operation whose WGSL accuracy bound is so loose here that any comparison would be unsound
